@@ -2,7 +2,7 @@
    Glue: decodes a request, runs the model, prints the observables in canonical form. *)
 From Coq Require Import List String Ascii ZArith NArith Bool.
 From QRB Require Import Base.Bytes Model.W Model.Values Model.Compile Model.Sexp Model.Decode.
-From QRB Require Import Meta.Regex Gen.Regex.
+From QRB Require Import Meta.Regex Gen.Regex Model.WArgs.
 Import ListNotations.
 Local Open Scope string_scope.
 
@@ -74,6 +74,27 @@ Definition handle (x : sexp) : string :=
           | _ => "CH-"
           end
       | _, _, _ => "DECODEFAIL"
+      end
+  | SList [SAtom "inline"; v; p; n; e] =>
+      (* the stateless rendering: every value written in place as \001a<id>\002 *)
+      match d_bool v, d_bool p, d_named n, decode_exp e with
+      | Some v', Some p', Some n', Some e' =>
+          match inline nat valid_ident valid_type (Build_opts v' p') (compile_top e') with
+          | None => "PANIC"
+          | Some il =>
+              let mark (x : option nat) :=
+                String "001"%char (match x with Some i => "a" ++ nat_dec i | None => "?" end)
+                  ++ String "002"%char "" in
+              "IL s" ++ hex (sconcat (map (fun i => match i with
+                                                    | IC _ c => chunk_bytes c
+                                                    | IVal _ x => mark (Some x)
+                                                    | INamed _ nm => mark (lookup nm n')
+                                                    end) il))
+                ++ " " ++ join_with "," (map (fun i => match i with
+                                                       | INamed _ nm => "s" ++ hex nm
+                                                       | _ => "-" end) il)
+          end
+      | _, _, _, _ => "DECODEFAIL"
       end
   | SList [SAtom "validident"; s] =>
       match d_str s with Some s' => if valid_ident s' then "T" else "F" | None => "DECODEFAIL" end
